@@ -949,6 +949,20 @@ theorem shutdown_after_flush_loses_nothing (s : St) (hq : s.queue = []) (hp : s.
     (shutdown s).rep = s.rep ∧ (shutdown s).queue = s.queue ∧ (shutdown s).pend = s.pend := by
   simp [shutdown, hq, hp]
 
+/-- **what a Shutdown can lose is a SUFFIX of the accepted operations**: in every run of the composed replica (any
+    interleaving, commits failing any number of times, remote walks anywhere) the operations of the committed
+    batches are a prefix of the accepted ones, in submission order, and they are exactly what the delta stream
+    carries; `Shutdown` drops the rest (open batch ++ queue) and leaves replica and stream as they are — no hole,
+    no reordering across a shutdown -/
+theorem shutdown_loses_only_a_suffix (cfg : Cfg) (me : Who) (evs : List CEv) (c : CSt) (rs : List Res)
+    (hr : crun cfg { me := me } evs = some (c, rs)) (hne : ∀ e ∈ evs, e ≠ CEv.loc (.take false)) :
+    cAccepted evs rs = (cshutdown c).done.flatten ++ (c.batch ++ c.queue) ∧
+    (cshutdown c).out.map (·.elems) = (cshutdown c).done.map elemsOf ∧
+    (cshutdown c).rep = c.rep ∧ (cshutdown c).out = c.out ∧
+    (cshutdown c).queue = [] ∧ (cshutdown c).batch = [] := by
+  obtain ⟨h1, h2, _⟩ := local_order_preserved cfg me evs c rs hr hne
+  exact ⟨by simpa [cshutdown, List.append_assoc] using h1, by simpa [cshutdown] using h2, rfl, rfl, rfl, rfl⟩
+
 end HooksCfg
 
 /-! ### The anchored functions still read as the model was transcribed (regenerated from /repo on every run) -/
